@@ -1,0 +1,9 @@
+//go:build !verif
+
+package memoization
+
+import "context"
+
+// verifYield is a verification hook; it does nothing unless the package is
+// built with the "verif" tag.
+func verifYield(ctx context.Context, point string) {}
